@@ -150,6 +150,8 @@ pub struct RandomDirector {
     reconnected_once: bool,
     /// the benign continuation may reconnect once when nothing is in transit (see `pending`)
     heal: bool,
+    /// the broker answers with success codes only and never varies them (aged / fresh twins)
+    fixed_acks: bool,
     now_ms: u64,
     stalls: u32,
     /// probes run before the benign drain: PUBREL sweep (reveals the pending inbound QoS 2
@@ -200,6 +202,7 @@ impl RandomDirector {
             force_drop: false,
             reconnected_once: false,
             heal: false,
+            fixed_acks: false,
             now_ms: 0,
             stalls: 0,
             probe: false,
@@ -305,6 +308,9 @@ impl RandomDirector {
     }
 
     fn ack_reason(&mut self, ok_codes: &[u8]) -> u8 {
+        if self.fixed_acks {
+            return ok_codes[0];
+        }
         if !self.benign && self.chance(self.p.p_fail_ack) {
             self.pick(&[0x80u8, 0x83, 0x87, 0x90, 0x97, 0x99])
         } else {
@@ -1190,6 +1196,166 @@ impl Director for TwinDirector {
         }
         .into();
         TopDec::Call(step)
+    }
+}
+
+// ------------------------------------------------------------------------------------------------
+// Aged vs. fresh twins (C17: capacity is fully recovered)
+
+/// The requests whose answers are compared between an aged, quiescent session and a brand-new
+/// one: sizes around the arena-filling packet for every QoS, then as many small requests of each
+/// kind as the session takes without an acknowledgement in between.
+pub fn capacity_program(tx: usize) -> Vec<Step> {
+    let mut v = Vec::new();
+    let publish = |qos: u8, topic: &str, len: usize| Step::Publish {
+        qos,
+        topic: topic.as_bytes().to_vec(),
+        payload: (0..len).map(|i| (i % 251) as u8).collect(),
+        retain: false,
+        props: vec![],
+        corr: None,
+        payload_fails: false,
+        corr_first: false,
+    };
+    for qos in [1u8, 2, 0] {
+        // reserved fixed header (5) + topic "c" (3) + identifier (2, QoS > 0) + property length (1)
+        let over = if qos > 0 { 11 } else { 9 };
+        let fit = tx.saturating_sub(over);
+        for d in [-3i64, -1, 0, 1, 2] {
+            let len = fit as i64 + d;
+            if len < 0 {
+                continue;
+            }
+            v.push(publish(qos, "c", len as usize));
+            for _ in 0..3 {
+                v.push(Step::Poll {});
+            }
+        }
+    }
+    for qos in [1u8, 2] {
+        for i in 0..10 {
+            v.push(publish(qos, &format!("n{i}"), 1));
+        }
+        for _ in 0..26 {
+            v.push(Step::Poll {});
+        }
+    }
+    for i in 0..10 {
+        v.push(Step::Subscribe {
+            filters: vec![crate::types::Filter { topic: format!("s/{i}").into_bytes(), qos: 1, nl: false, rap: false, rh: 0 }],
+            props: vec![],
+        });
+    }
+    for _ in 0..14 {
+        v.push(Step::Poll {});
+    }
+    for i in 0..5 {
+        v.push(publish(1, &format!("m{i}"), 2));
+        v.push(publish(2, &format!("m{i}"), 2));
+        v.push(Step::Unsubscribe { topics: vec![format!("u/{i}").into_bytes()], props: vec![] });
+    }
+    for _ in 0..30 {
+        v.push(Step::Poll {});
+    }
+    v
+}
+
+/// Runs a random history to quiescence (or nothing at all: the fresh twin), drops the connection,
+/// reconnects to a deterministic benign broker and runs the capacity program.
+pub struct AgedDirector {
+    hist: Option<RandomDirector>,
+    cap: TwinDirector,
+    phase: u8,
+    conn_tries: u32,
+    /// the history was drained to a quiescent session (otherwise the pair is not compared)
+    pub drained: std::rc::Rc<std::cell::Cell<bool>>,
+}
+
+impl AgedDirector {
+    pub fn new(seed: u64, hist: Option<RandomDirector>, tx: usize, rx: usize,
+               drained: std::rc::Rc<std::cell::Cell<bool>>) -> Self {
+        let nobody = std::rc::Rc::new(std::cell::RefCell::new(Vec::new()));
+        let mut cap = TwinDirector::new(seed, capacity_program(tx), TwinKind::Base, rx, nobody);
+        cap.inner.fixed_acks = true;
+        // the aged session resumes (its CONNECT does not ask for a clean start)
+        cap.inner.broker.has_session = hist.is_some();
+        let phase = if hist.is_some() { 0 } else { 2 };
+        drained.set(hist.is_none());
+        Self { hist, cap, phase, conn_tries: 0, drained }
+    }
+
+    fn cur(&mut self) -> &mut dyn Director {
+        if self.phase == 0 {
+            self.hist.as_mut().unwrap()
+        } else {
+            &mut self.cap
+        }
+    }
+}
+
+impl Director for AgedDirector {
+    fn write(&mut self, view: &View, offered: &[u8]) -> IoDec {
+        self.cur().write(view, offered)
+    }
+    fn read(&mut self, view: &View, want: usize) -> IoDec {
+        self.cur().read(view, want)
+    }
+    fn flush(&mut self, view: &View) -> IoDec {
+        self.cur().flush(view)
+    }
+    fn pending(&mut self, view: &View) -> PendDec {
+        self.cur().pending(view)
+    }
+    fn wrote(&mut self, bytes: &[u8]) {
+        self.cur().wrote(bytes)
+    }
+    fn flushed(&mut self) {
+        self.cur().flushed()
+    }
+    fn returned(&mut self, op: &str, result: &Value, obs: &Value) {
+        self.cur().returned(op, result, obs)
+    }
+    fn new_transport(&mut self) {
+        self.cur().new_transport()
+    }
+    fn spin_adv(&mut self, view: &View, n: u32) -> Option<u64> {
+        self.cur().spin_adv(view, n)
+    }
+    fn spin_inject(&mut self, view: &View, n: u32) -> Option<Vec<u8>> {
+        self.cur().spin_inject(view, n)
+    }
+    fn top(&mut self, view: &View) -> TopDec {
+        match self.phase {
+            0 => {
+                let d = self.hist.as_mut().unwrap().top(view);
+                if matches!(d, TopDec::End) {
+                    self.drained.set(self.hist.as_ref().unwrap().drain_done);
+                    self.phase = 1;
+                    return self.top(view);
+                }
+                d
+            }
+            1 => {
+                self.phase = 2;
+                if view.has_conn {
+                    return TopDec::DropConn;
+                }
+                self.top(view)
+            }
+            2 => {
+                if self.cap.connected {
+                    self.phase = 3;
+                    return TopDec::Note(json!({"e":"capstart"}));
+                }
+                self.conn_tries += 1;
+                if self.conn_tries > 2 {
+                    self.drained.set(false);
+                    return TopDec::End;
+                }
+                self.cap.top(view)
+            }
+            _ => self.cap.top(view),
+        }
     }
 }
 
